@@ -1,14 +1,15 @@
 ------------------------------- MODULE GitBug -------------------------------
 (* The replicated entity store of git-bug: bugs stored as DAGs of operation packs (git commits) under
-   refs, Lamport clocks, push / fetch over one shared bare remote ("hub"), and merge-on-pull.
+   refs, Lamport clocks, push / fetch over shared bare remotes ("hubs"; every replica has every remote configured),
+   and merge-on-pull.
 
    Written in the shape of entity/dag/entity.go and entity/dag/entity_actions.go:
 
      commit universe   <->  git commits written by operationPack.Write (tree entries edit-clock-N,
                             create-clock-N, the ops blob), append-only, numbered in creation order
      ref[r][b]         <->  refs/bugs/<id> of replica r
-     trk[r][b]         <->  refs/remotes/origin/bugs/<id> of replica r
-     hub[b]            <->  refs/bugs/<id> in the bare remote
+     trk[r][m][b]      <->  refs/remotes/<m>/bugs/<id> of replica r
+     hub[m][b]         <->  refs/bugs/<id> in the bare remote m
      clk[r]            <->  the two Lamport clocks bugs-edit / bugs-create (memory value and clock file)
      res               <->  what the last API call reported (merge status + returned entity, push outcome, read)
 
@@ -18,7 +19,8 @@
    goroutine-level interleavings inside one process of CacheConc.tla (C18).                               *)
 EXTENDS Integers, Sequences, FiniteSets, SequencesExt
 
-CONSTANTS Replica,      \* the replicas (clones) sharing the hub
+CONSTANTS Replica,      \* the replicas (clones) sharing the hubs
+          Remote,       \* the names of the remotes
           NBug,         \* bug slots 1..NBug (slot = order of creation)
           Author,       \* identities
           MaxHop        \* largest plausible clock jump on a non-merge edge (1 000 000 in the code)
@@ -91,8 +93,8 @@ Init ==
   /\ commits = <<>>
   /\ nops = 0
   /\ ref = [r \in Replica |-> [b \in Bugs |-> 0]]
-  /\ trk = [r \in Replica |-> [b \in Bugs |-> 0]]
-  /\ hub = [b \in Bugs |-> 0]
+  /\ trk = [r \in Replica |-> [m \in Remote |-> [b \in Bugs |-> 0]]]
+  /\ hub = [m \in Remote |-> [b \in Bugs |-> 0]]
   /\ clk = [r \in Replica |-> [e |-> 1, c |-> 1, de |-> 1, dc |-> 1]]
   /\ res = NoRes
 
@@ -149,58 +151,66 @@ Read(r, b) ==
 
 (* ------------------------------------------------------------------ synchronisation ---- *)
 (* go-git pushes refs/bugs/*:refs/bugs/* without force; one non-fast-forward ref refuses the whole push. *)
-PushOK(r) == \A b \in Bugs : ref[r][b] # 0 /\ hub[b] # 0 => hub[b] \in Anc(ref[r][b])
+PushOK(r, m) == \A b \in Bugs : ref[r][b] # 0 /\ hub[m][b] # 0 => hub[m][b] \in Anc(ref[r][b])
 
-Push(r) ==          \* with nothing to push it succeeds and changes nothing
-  /\ IF PushOK(r)
-     THEN /\ hub' = [b \in Bugs |-> IF ref[r][b] # 0 THEN ref[r][b] ELSE hub[b]]
-          /\ trk' = [trk EXCEPT ![r] = [b \in Bugs |-> IF ref[r][b] # 0 THEN ref[r][b] ELSE trk[r][b]]]
+Push(r, m) ==          \* with nothing to push it succeeds and changes nothing
+  /\ IF PushOK(r, m)
+     THEN /\ hub' = [hub EXCEPT ![m] = [b \in Bugs |-> IF ref[r][b] # 0 THEN ref[r][b] ELSE hub[m][b]]]
+          /\ trk' = [trk EXCEPT ![r][m] = [b \in Bugs |-> IF ref[r][b] # 0 THEN ref[r][b] ELSE trk[r][m][b]]]
           /\ res' = [kind |-> "push", r |-> r, ok |-> TRUE]
      ELSE /\ UNCHANGED <<hub, trk>>
           /\ res' = [kind |-> "push", r |-> r, ok |-> FALSE]
   /\ UNCHANGED <<commits, nops, ref, clk>>
 
-(* Fetch: remote-tracking refs := hub refs (forced, no pruning). *)
-Fetch(r) ==
-  /\ trk' = [trk EXCEPT ![r] = [b \in Bugs |-> IF hub[b] # 0 THEN hub[b] ELSE trk[r][b]]]
+(* Fetch: remote-tracking refs of that remote := its refs (forced, no pruning); those of other remotes stay. *)
+Fetch(r, m) ==
+  /\ trk' = [trk EXCEPT ![r][m] = [b \in Bugs |-> IF hub[m][b] # 0 THEN hub[m][b] ELSE trk[r][m][b]]]
   /\ res' = [kind |-> "fetch", r |-> r]
   /\ UNCHANGED <<commits, nops, ref, hub, clk>>
 
+(* deviation, named: go-git refuses to fetch from a remote that holds no ref at all ("remote repository is empty"): the call
+   reports an error and changes nothing.  Whether a remote holds other refs than bugs (identities) is outside this module; the
+   trace specification takes it from the log. *)
+FetchRefused(r, m) ==
+  /\ \A b \in Bugs : hub[m][b] = 0
+  /\ res' = [kind |-> "fetch", r |-> r]
+  /\ UNCHANGED <<commits, nops, ref, trk, hub, clk>>
+
 (* merge() of one remote-tracking ref, the five scenarios of entity_actions.go.  The entity handed back with
    "new" / "updated" must be the merged result (C02). *)
-MergeRes(r, b, st, pre, ops) ==
-  [kind |-> "merge", r |-> r, b |-> b, status |-> st, pre |-> pre, ops |-> ops]
+MergeRes(r, m, b, st, pre, ops) ==
+  [kind |-> "merge", r |-> r, m |-> m, b |-> b, status |-> st, pre |-> pre, ops |-> ops]
 
-Merge(r, b, au, rk) ==
-  LET R == trk[r][b] L == ref[r][b] IN
+Merge(r, m, b, au, rk) ==
+  LET R == trk[r][m][b] L == ref[r][b] IN
   /\ R # 0
   /\ IF ~ReadOK(R)
-     THEN /\ res' = MergeRes(r, b, "invalid", L, <<>>)
+     THEN /\ res' = MergeRes(r, m, b, "invalid", L, <<>>)
           /\ UNCHANGED <<commits, nops, ref, clk>>
      ELSE LET k0 == WitnessHead(clk[r], R) IN
           IF L = 0                                                     \* scenario 1
           THEN /\ ref' = [ref EXCEPT ![r][b] = R]
                /\ clk' = [clk EXCEPT ![r] = k0]
-               /\ res' = MergeRes(r, b, "new", L, Order(R))
+               /\ res' = MergeRes(r, m, b, "new", L, Order(R))
                /\ UNCHANGED <<commits, nops>>
           ELSE IF L = R \/ R \in Anc(L)                                \* scenarios 2, 3
           THEN /\ clk' = [clk EXCEPT ![r] = k0]
-               /\ res' = MergeRes(r, b, "nothing", L, <<>>)
+               /\ res' = MergeRes(r, m, b, "nothing", L, <<>>)
                /\ UNCHANGED <<commits, nops, ref>>
           ELSE IF L \in Anc(R)                                         \* scenario 4: fast-forward
           THEN /\ ref' = [ref EXCEPT ![r][b] = R]
                /\ clk' = [clk EXCEPT ![r] = k0]
-               /\ res' = MergeRes(r, b, "updated", L, Order(R))
+               /\ res' = MergeRes(r, m, b, "updated", L, Order(R))
                /\ UNCHANGED <<commits, nops>>
           ELSE                                                         \* scenario 5: merge commit
                LET k1 == IncEdit(WitnessHead(k0, L))
-                   m == [par |-> <<L, R>>, et |-> k1.e, ct |-> 0, au |-> au, ops |-> <<>>,
+                   mc == [par |-> <<L, R>>, et |-> k1.e, ct |-> 0, au |-> au, ops |-> <<>>,
                          rank |-> rk[Len(commits) + 1], bug |-> b]
                    id == Len(commits) + 1 IN
-               /\ commits' = Append(commits, m)
+               /\ commits' = Append(commits, mc)
                /\ ref' = [ref EXCEPT ![r][b] = id]
                /\ clk' = [clk EXCEPT ![r] = k1]
-               /\ res' = MergeRes(r, b, "updated", L, OrderOfSet(Anc(L) \cup Anc(R)))   \* the merge pack is empty
+               /\ res' = MergeRes(r, m, b, "updated", L, OrderOfSet(Anc(L) \cup Anc(R)))   \* the merge pack is empty
                /\ UNCHANGED nops
   /\ UNCHANGED <<trk, hub>>
 
@@ -235,7 +245,7 @@ DeleteClocks(r, which) ==
 Heads == UNION {{ref[r][b] : b \in Bugs} : r \in Replica} \ {0}
 
 (* C01/C03: everything git-bug builds itself stays readable *)
-AllReadable == \A h \in Heads \cup ({hub[b] : b \in Bugs} \ {0}) : ReadOK(h)
+AllReadable == \A h \in Heads \cup (UNION {{hub[m][b] : b \in Bugs} : m \in Remote} \ {0}) : ReadOK(h)
 
 (* C03: an operation is never ordered before one it causally follows *)
 Pos(s, x) == CHOOSE i \in DOMAIN s : s[i] = x
@@ -254,7 +264,7 @@ Converged ==
 (* C02: the merge report is truthful, nothing is lost, the returned entity is the merged one *)
 MergeTruthful ==
   res.kind = "merge" =>
-    LET now == ref[res.r][res.b] R == trk[res.r][res.b] IN
+    LET now == ref[res.r][res.b] R == trk[res.r][res.m][res.b] IN
     /\ res.status = "invalid" <=> ~ReadOK(R)
     /\ res.status = "new" <=> (ReadOK(R) /\ res.pre = 0)
     /\ res.status \in {"nothing", "invalid"} => now = res.pre
@@ -292,9 +302,10 @@ ActionProps == [][AppendOnly /\ NewCommitsDominate /\ RefsGrow]_vars
 (* C01 (the quiescence clause): when no synchronisation step can change anything any more, all replicas hold
    the same operations for every bug *)
 SyncNoop(r) ==
-  /\ \A b \in Bugs : hub[b] # 0 => trk[r][b] = hub[b]                               \* Fetch changes nothing
-  /\ \A b \in Bugs : trk[r][b] # 0 => (ref[r][b] # 0 /\ trk[r][b] \in Anc(ref[r][b]))  \* Merge reports nothing
-  /\ \A b \in Bugs : ref[r][b] # 0 => hub[b] = ref[r][b]                             \* Push changes nothing
+  \A m \in Remote :
+  /\ \A b \in Bugs : hub[m][b] # 0 => trk[r][m][b] = hub[m][b]                               \* Fetch changes nothing
+  /\ \A b \in Bugs : trk[r][m][b] # 0 => (ref[r][b] # 0 /\ trk[r][m][b] \in Anc(ref[r][b]))  \* Merge reports nothing
+  /\ \A b \in Bugs : ref[r][b] # 0 => hub[m][b] = ref[r][b]                                  \* Push changes nothing
 Quiescent == \A r \in Replica : SyncNoop(r)
 QuiescentConverged ==
   Quiescent => \A r1, r2 \in Replica : \A b \in Bugs : OpsOf(ref[r1][b]) = OpsOf(ref[r2][b])
